@@ -505,6 +505,66 @@ def variants(run, seed, idx, geometry, roi_iradon):
                                                                                    traceback.format_exc().strip().splitlines()[-3].strip()))
 
 
+def ref_fourier_filter(size, name):
+    """the reconstruction filters (Kak & Slaney ch. 3 eq. 61 ramp, windows as in skimage), written out independently"""
+    n = np.concatenate((np.arange(1, size // 2 + 1, 2), np.arange(size // 2 - 1, 0, -2)))
+    f = np.zeros(size)
+    f[0] = 0.25
+    f[1::2] = -1.0 / (np.pi * n) ** 2
+    ramp = 2 * np.real(np.fft.fft(f))
+    if name == "ramp":
+        return ramp
+    if name == "shepp-logan":
+        om = np.pi * np.fft.fftfreq(size)
+        w = np.ones(size)
+        w[1:] = np.sin(om[1:]) / om[1:]
+        return ramp * w
+    if name == "cosine":
+        return ramp * np.fft.fftshift(np.sin(np.linspace(0, np.pi, size, endpoint=False)))
+    if name == "hamming":
+        return ramp * np.fft.fftshift(np.hamming(size))
+    if name == "hann":
+        return ramp * np.fft.fftshift(np.hanning(size))
+    raise ValueError(name)
+
+
+def filter_history(run, seed, idx, roi_iradon):
+    """One process reconstructs many grains with different filters, in any order.  Oracle: filtered back-projection
+    with filter X of a sinogram equals UNFILTERED back-projection (filter_name=None) of the sinogram the harness
+    filtered itself (same zero padding, independent filter formula) - whatever was reconstructed before."""
+    r = rng(seed, "C19", "filters", idx)
+    sizes = [int(v) for v in r.choice([9, 16, 21, 33, 40], 2, replace=False)]
+    theta = np.arange(0.0, 180.0, float(r.choice([2.0, 3.0, 7.5])))
+    order = [FILTERS[i] for i in r.permutation(len(FILTERS))] + [FILTERS[i] for i in r.permutation(len(FILTERS))]
+    desc = dict(index=idx, kind="filter-history", sizes=sizes, order=[str(f) for f in order])
+    run.case(("filter-history", tuple(sizes), tuple(str(f) for f in order)), nontrivial=True, sample=desc if idx < 2 else None)
+    first = {}
+    for step, filt in enumerate(order):
+        n = sizes[step % 2] if idx % 2 else sizes[0]
+        sino = r.random((n, len(theta)))
+        m = int(np.ceil(np.sqrt(2) * n))
+        before = m // 2 - n // 2
+        padded = np.zeros((m, len(theta)))
+        padded[before:before + n] = sino
+        if filt is None:
+            F = padded
+        else:
+            P = max(64, int(2 ** np.ceil(np.log2(2 * m))))
+            big = np.zeros((P, len(theta)))
+            big[:m] = padded
+            F = np.real(np.fft.ifft(np.fft.fft(big, axis=0) * ref_fourier_filter(P, filt)[:, None], axis=0))[:m]
+        got = roi_iradon.iradon(sino.copy(), theta=theta, output_size=n, filter_name=filt, workers=1)
+        want = roi_iradon.iradon(F, theta=theta, output_size=n, filter_name=None, workers=1)
+        run.count("filter_history_reconstructions")
+        scale = float(np.abs(want).max())
+        if got.shape != want.shape or not np.abs(got - want).max() <= 1e-9 * scale:
+            run.violation("iradon:filter-history", "step %d of a series of reconstructions: filter %r gives an image that differs "
+                          "from back-projecting the independently filtered sinogram by %.3g (scale %.3g); filters used "
+                          "before: %r" % (step, filt, float(np.abs(got - want).max()) if got.shape == want.shape else -1,
+                                          scale, [str(f) for f in order[:step]]), dict(desc, step=step))
+            return
+
+
 def check(run, replay=None):
     from ImageD11.sinograms import geometry, roi_iradon
     from ImageD11.sinograms import point_by_point as pbp
@@ -516,6 +576,8 @@ def check(run, replay=None):
             geometry_extras(run, replay["seed"], cs["index"], geometry)
         elif cs["kind"] == "variants":
             variants(run, replay["seed"], cs["index"], geometry, roi_iradon)
+        elif cs["kind"] == "filter-history":
+            filter_history(run, replay["seed"], cs["index"], roi_iradon)
         else:
             reconstruction(run, replay["seed"], cs["index"], geometry, roi_iradon)
         run.nontrivial.update(["replay", "replay2"])
@@ -528,6 +590,8 @@ def check(run, replay=None):
         reconstruction(run, run.seed, i, geometry, roi_iradon)
     for i in range(nv):
         variants(run, run.seed, i, geometry, roi_iradon)
+    for i in range(nv // 6):
+        filter_history(run, run.seed, i, roi_iradon)
     run.extra["workers_tested"] = [1, 2, 3, 4, 5, 7, 8, 13, 16, None]
     run.require_counter("conversion_samples", 5000)
     run.require_counter("reused_angle_buffer_calls", 100)
@@ -542,6 +606,7 @@ def check(run, replay=None):
     for f in FILTERS:
         run.require_counter("variant_filter_%s" % f, 3)
     run.require_counter("variant_roi_runs", 500)
+    run.require_counter("filter_history_reconstructions", 100)
     run.require_counter("variant_interpolation_checks", 100)
     run.require_counter("variant_noshift_checks", 5)
     run.require_counter("variant_float32_runs", 50)
